@@ -19,7 +19,7 @@ func main() {
 	maxCap := 4
 	mapCfg := [][3]int{{3, 1, 2}, {2, 1, 3}}
 	if run.Thorough() {
-		deadline = time.Now().Add(25 * time.Minute)
+		deadline = time.Now().Add(12 * time.Minute)
 		maxCap = 5
 		mapCfg = [][3]int{{3, 2, 3}, {4, 1, 2}}
 	}
